@@ -114,6 +114,16 @@ def _m_int(*a, **k):
 
 
 def _m_range(*a):
+    if _len(a) == 2 and _isinstance(a[0], SymInt) and a[0].lo != a[0].hi:
+        # range(start, start + n) with symbolic start and constant n: symbolic elements, no enumeration
+        d = a[1] - a[0]
+        if _isinstance(d, SymInt):
+            t = z3.simplify(d.t)
+            if z3.is_bv_value(t):
+                n = t.as_signed_long()
+                return [a[0] + i for i in _range(max(0, n))]
+        elif _isinstance(d, _int):
+            return [a[0] + i for i in _range(max(0, d))]
     if ALLOC_LOG is not None:
         for x in a:
             if _isinstance(x, SymInt) and x.lo != x.hi:
